@@ -2,7 +2,7 @@
 controlled (ctl), jitter and free modes under several synthetic topologies, collecting their
 NDJSON logs, validating them with a linear trace specification whose executions start with a
 "reset" record, and turning rejections into violations with the context of the execution."""
-import os, json, concurrent.futures as cf
+import os, json, json, concurrent.futures as cf
 from .common import *
 from . import tv
 
@@ -38,7 +38,16 @@ def cat(paths, outpath):
     with open(outpath, "w") as o:
         for p in paths:
             if os.path.exists(p):
-                with open(p) as f:
-                    for line in f:
+                with open(p, "rb") as f:
+                    for raw in f:
+                        # a line that is not JSON means the process under test corrupted memory: the execution it
+                        # belongs to is treated as crashed
+                        try:
+                            line = raw.decode("utf-8")
+                            json.loads(line)
+                        except Exception:
+                            line = '{"ev":"crash","sig":-2}\n'
+                        if not line.endswith("\n"):
+                            line += "\n"
                         o.write(line); n += 1
     return n
